@@ -135,6 +135,38 @@ def _job_worker(job):
                 'clauses': {}, 'safety': [], 'inputs': {}, 'seconds': 0, 'solver_s': 0, 'backend': None, 'log': ''}
 
 
+def compact_obligations(obligations):
+    """per function (and build): back end, seconds, number of obligations by status, the clause names (generated safety obligations only counted)"""
+    out = {}
+    for o in obligations:
+        fn, _, name = o['id'].partition('.')
+        e = out.setdefault(fn, {'kind': o.get('kind'), 'backend': o.get('backend'), 'seconds': o.get('seconds'), 'discharged': 0, 'refuted': 0,
+                                'clauses': [], 'safety_obligations': 0})
+        e['discharged' if o['status'] == 'discharged' else 'refuted'] += 1
+        if 'bounded' in o:
+            e['bounded'] = o['bounded']
+        if name.startswith('safety:'):
+            e['safety_obligations'] += 1
+            if o['status'] != 'discharged':
+                e.setdefault('refuted_names', []).append(name[:200])
+        else:
+            e['clauses'].append(name if o['status'] == 'discharged' else name + ' [REFUTED]')
+    # very large tables (tens of thousands of clauses): keep the names of the first clauses of each function only
+    total = sum(len(e['clauses']) for e in out.values())
+    if total > 12000:
+        for e in out.values():
+            if len(e['clauses']) > 4:
+                e['clauses'] = e['clauses'][:3] + ['... %d more (see obligation_list_full)' % (len(e['clauses']) - 3)]
+    return out
+
+
+def compact_bounded(bnd):
+    by = {}
+    for o in bnd:
+        by.setdefault(o.get('bounded'), []).append(o['id'])
+    return [{'bound': k, 'obligations': len(v), 'examples': v[:5]} for k, v in by.items()]
+
+
 def call_chain_to(mod, root, pattern):
     """first call chain root -> ... -> callee whose name matches pattern, following calls to functions defined in the module; None if none"""
     rx = re.compile(pattern)
@@ -603,8 +635,11 @@ class Prop:
                                '[--replace-call-with-contract <g>] | cbmc --unwind N --unwinding-assertions [--z3|--cvc5]',
                 'trusted_base': sorted(trusted),
                 'functions_under_contract': fns,
-                'obligation_list': obligations,
-                'bounded': bnd,
+                # one entry per function under contract (the per-obligation list, with solver times, is in evidence/<id>.obligations.jsonl.gz;
+                # an evidence file has to stay well below 5 MB)
+                'obligation_list': compact_obligations(obligations),
+                'obligation_list_full': 'evidence/%s.obligations.jsonl.gz' % self.id,
+                'bounded': compact_bounded(bnd),
                 'undecided': list(undecided),
                 'known_findings': list(known),
                 'tcheck': tstats or {},
@@ -619,6 +654,11 @@ class Prop:
             'wall_s': round(wall, 2),
             'violations': len(violations),
         }
+        if not getattr(self, '_partial', False):
+            import gzip
+            with gzip.open(os.path.join(VERIF, 'evidence', self.id + '.obligations.jsonl.gz'), 'wt', compresslevel=6) as gz:
+                for o in obligations:
+                    gz.write(json.dumps(o) + '\n')
         if not dis:
             # schema requires >= 1 for proof-level keys; an empty run is recorded honestly as 'other'
             ev['level'] = 'other'
